@@ -12,6 +12,7 @@ import (
 	"path/filepath"
 	"sort"
 	"strings"
+	"sync"
 
 	"golang.org/x/tools/go/packages"
 	"golang.org/x/tools/go/ssa"
@@ -19,24 +20,26 @@ import (
 )
 
 type Engine struct {
-	repo      string
-	fset      *token.FileSet
-	pkgs      []*packages.Package
-	prog      *ssa.Program
-	home      *types.Package
-	homeSSA   *ssa.Package
-	homes     map[*types.Package]bool
-	allPkgs   []*types.Package
-	contracts *ContractSet
-	tags      map[string]int64
-	tagTypes  map[int64]types.Type
+	httpErrOnce   sync.Once
+	httpErrImm    bool
+	repo          string
+	fset          *token.FileSet
+	pkgs          []*packages.Package
+	prog          *ssa.Program
+	home          *types.Package
+	homeSSA       *ssa.Package
+	homes         map[*types.Package]bool
+	allPkgs       []*types.Package
+	contracts     *ContractSet
+	tags          map[string]int64
+	tagTypes      map[int64]types.Type
 	concreteTypes []types.Type
-	frames    map[*ssa.Function]*frameSet
-	globalArrays map[*ssa.Global][]int64
-	files     map[*token.File]*ast.File
-	funcs     map[string]*ssa.Function // key -> function (home packages)
-	addrTaken []*ssa.Function
-	loadTime  float64
+	frames        map[*ssa.Function]*frameSet
+	globalArrays  map[*ssa.Global][]int64
+	files         map[*token.File]*ast.File
+	funcs         map[string]*ssa.Function // key -> function (home packages)
+	addrTaken     []*ssa.Function
+	loadTime      float64
 }
 
 type frameSet struct {
@@ -917,6 +920,35 @@ func (e *Engine) staticFieldKeys(f *ssa.Function, path string, keys map[string]S
 	}
 	if strings.HasPrefix(path, "blen(") {
 		keys[kBufLen] = arrOf(SInt)
+		return true
+	}
+	if strings.HasPrefix(path, "mapobj(") {
+		// resolve the parameter's (or field's) map type statically
+		inner := strings.TrimSuffix(strings.TrimPrefix(path, "mapobj("), ")")
+		parts := strings.Split(inner, ".")
+		var cur types.Type
+		for _, p := range f.Params {
+			if p.Name() == parts[0] {
+				cur = p.Type()
+			}
+		}
+		for _, name := range parts[1:] {
+			if cur == nil {
+				break
+			}
+			obj, _, _ := types.LookupFieldOrMethod(cur, true, f.Pkg.Pkg, name)
+			if fv, ok := obj.(*types.Var); ok {
+				cur = fv.Type()
+			} else {
+				cur = nil
+			}
+		}
+		if cur == nil || kindOf(cur) != KMap {
+			return false
+		}
+		for k, s := range e.mapKeys(cur) {
+			keys[k] = s
+		}
 		return true
 	}
 	parts := strings.Split(path, ".")
